@@ -244,6 +244,50 @@ def c13_cases(h, rng, n):
                 ops.append(("sleep", rng.choice([1, 1000, 6000])))
         sid = "c13_s_%d" % i
         out.append(Case(sid, script_text(sid, "outstation", cfg, ops), {"kind": "session", "cfg": cfg}))
+    # a response carrying events is abandoned in every possible way (cancelled by DISABLE_UNSOLICITED, confirm
+    # timeout without retry, new request, disconnect, wrong confirm then timeout); the next responses must show
+    # the class bits of those events again (seeded change C13_c: no database reset on one of the routes)
+    for i in range(max(6, n // 5)):
+        unsol = rng.chance(2, 3)
+        cfg = {"unsol": 1 if unsol else 0, "soltx": 300, "confirm_ms": 1000, "retries": rng.choice(["0", "0", "1", "none"]),
+               "retry_delay_ms": rng.choice([500, 5000]), "sel": 0, "op": 0, "decode": rng.below(4), "evbuf": 5}
+        ops = [("add", "binary", 0, 1), ("add", "analog", 1, 2), ("add", "counter", 2, 3)]
+        seq = rng.below(16)
+        if unsol:
+            ops.append(("rx", MASTER, "none", hexs(frag(0, FN["confirm"], uns=True))))
+            ops.append(("rx", MASTER, "none", hexs(frag(seq, FN["enable"], read_classes(rng.choice([(1, 2, 3), (1,), (1, 2)])))))); seq = (seq + 1) & 15
+        t = 100
+        for _ in range(rng.range(1, 3)):
+            typ, idx = rng.choice([("binary", 0), ("binary", 0), ("analog", 1), ("counter", 2)])
+            t += 7
+            ops.append(("update", typ, idx, str(t & 1) if typ == "binary" else str(t), 1, t))
+        if not unsol:
+            ops.append(("rx", MASTER, "none", hexs(frag(seq, FN["read"], read_classes((1, 2, 3)))))); seq = (seq + 1) & 15
+        how = rng.choice(["disable", "disable", "disable-some", "timeout", "request", "disconnect", "wrong-confirm"])
+        if how == "disable":
+            ops.append(("rx", MASTER, "none", hexs(frag(seq, FN["disable"], read_classes((1, 2, 3)))))); seq = (seq + 1) & 15
+        elif how == "disable-some":
+            ops.append(("rx", MASTER, "none", hexs(frag(seq, FN["disable"], read_classes(rng.choice([(1,), (2, 3)])))))); seq = (seq + 1) & 15
+        elif how == "timeout":
+            ops.append(("sleep", 1001))
+        elif how == "request":
+            ops.append(("rx", MASTER, "none", hexs(frag(seq, FN["delay"])))); seq = (seq + 1) & 15
+        elif how == "disconnect":
+            ops.append(("disconnect",))
+        else:
+            ops.append(("rx", MASTER, "none", hexs(frag(rng.below(16), FN["confirm"], uns=rng.chance(1, 2)))))
+            ops.append(("sleep", 1001))
+        for _ in range(rng.range(1, 3)):
+            what = rng.below(3)
+            if what == 0:
+                ops.append(("rx", MASTER, "none", hexs(frag(seq, FN["delay"]))))
+            elif what == 1:
+                ops.append(("rx", MASTER, "none", hexs(frag(seq, FN["read"], read_classes((0,))))))
+            else:
+                ops.append(("rx", MASTER, "none", hexs(frag(seq, FN["read"], read_classes((1, 2, 3))))))
+            seq = (seq + 1) & 15
+        sid = "c13_a_%d" % i
+        out.append(Case(sid, script_text(sid, "outstation", cfg, ops), {"kind": "session-abandon", "cfg": cfg}))
     return out
 
 
@@ -261,11 +305,45 @@ def c13_oracle(h, case, impl):
     maybe = False         # a CONFIRM matching `reported` arrived outside a confirm wait: the bit may be either
     wrong = None          # a confirm that confirms no report arrived while the indication was pending (diagnosis)
     evinfo = None
+    # class bits: events written into a response count as "awaiting confirmation" only while that response
+    # really awaits its confirm; once the wait has ended without a confirm (timeout, new request, cancelled by
+    # DISABLE_UNSOLICITED, disconnect) the database must have been reset before the next IIN is computed
+    carried = False       # a response carrying events was formed and neither confirmed nor reset since
+    fresh = False         # ... and it is the response being formed right now (its own IIN is computed next)
+    waiting = None        # None / "sol" / "unsol": a confirm wait is in progress
     for op, t, lines in split_steps(impl):
         if op[0] == "appiin":
             appiin = int(op[1])
         if op[0] == "disconnect":
             reported, maybe = None, False
+        cancel = False
+        if op[0] == "rx" and op[2] == "none" and waiting == "unsol":
+            b1 = bytes.fromhex(op[3]) if op[3] != "-" else b""
+            cancel = (len(b1) >= 2 and b1[1] == 21 and any(" > digest " in l and "obj=ok" in l and "rv=ok" in l for l in lines)
+                      and any(" tx " in l for l in lines))
+        for l in lines:
+            tk = l.split()
+            if len(tk) == 2 and tk[1].startswith("session-end"):
+                waiting = None
+            if len(tk) < 3:
+                continue
+            if tk[1] == ">" and tk[2] == "write" and tk[4] == "1":
+                carried, fresh = True, True
+            elif tk[1] == ">" and tk[2] == "unsol" and tk[3] != "0":
+                carried, fresh = True, True
+            elif tk[1] == "db" and tk[2] in ("clear_written", "reset", "write_unsol", "deferred_select"):
+                carried, fresh = False, False
+            elif tk[1] == "info" and tk[2] == "enter_sol_wait": waiting = "sol"
+            elif tk[1] == "info" and tk[2] == "enter_unsol_wait": waiting = "unsol"
+            elif tk[1] == "info" and tk[2] in ("sol_confirmed", "sol_timeout", "sol_new_request", "unsol_confirmed"): waiting = None
+            elif tk[1] == "info" and tk[2] == "unsol_timeout" and tk[4] == "0": waiting = None
+            elif tk[1] == "tx" and cancel and len(tk) > 3 and tk[3][2:4] == "81":
+                waiting = None            # the reply to DISABLE_UNSOLICITED: the unsolicited series is cancelled
+            elif tk[1] == "db" and tk[2] == "evinfo":
+                if carried and not fresh and waiting is None:
+                    fails.append(("class-bit-stale", "the IIN of a response is computed while the events of an abandoned response (timed out, aborted, cancelled or cut) still count as awaiting confirmation: the database was not reset"))
+                    carried = False
+                fresh = False
         if op[0] == "rx" and op[2] == "none" and bcast == "mand":
             b0 = bytes.fromhex(op[3]) if op[3] != "-" else b""
             if len(b0) >= 2 and b0[1] == 0 and not (b0[0] & 0x10) and not any(" info " in l for l in lines):
